@@ -425,7 +425,8 @@ _EXTRA = {
     'C15': 'Forms also include deferred UniqueGuard / SharedGuard objects with guard.TryLock / Lock and a give-up path.',
     'C13': 'Also generated: an executor stopped by the coroutine itself while it runs on it (then On / kYield / AwaitOn), '
            'awaited futures completed by other coroutines reaching their end, Await(task) on an lvalue incl. destroying '
-           'the completed Task, co_return of a value whose copy throws (Future / Task / SharedFuture coroutines).',
+           'the completed Task, co_return of a value whose copy throws (Future / Task / SharedFuture coroutines), '
+           'executor 1 as a Strand over its pool, awaited contracts that carry executor 1 (MakeContractOn).',
     'C12': 'Heads also include coroutine Tasks (frame-owned Tracked parameter) and LazyContract; the Await start mode also reads the Result in place and destroys the completed Task.',
     'C20': 'Wait ranges cover Future and FutureOn handles (value and void); step functors carry a heap-owning copyable '
            'capture moved in from outside the measured window, so a copied functor costs a visible block.',
